@@ -38,6 +38,9 @@ var c05Letters = func() []rec.Call {
 			// arcs, judged by C06; here: what follows an arc starts from the pen the arc left and
 			// from no smooth state
 			ls = append(ls, rec.Call{M: rec.MAbsA, LA: true, A: [6]float32{4, 6, 0.1, 7.5, 2.25}}, rec.Call{M: rec.MRelA, SW: true, A: [6]float32{3, 3, 0, -4, 6}})
+			// cubics that happen to be straight: first control point on the pen, second on the end
+			// point - still cubic segments
+			ls = append(ls, rec.Call{M: rec.MRelC, A: [6]float32{0, 0, 4, 6, 4, 6}}, rec.Call{M: rec.MAbsS, A: [6]float32{7.5, 2.25, 7.5, 2.25}})
 			c05QuickLetters = len(ls)
 		}
 	}
@@ -172,6 +175,14 @@ func (st *c05State) check(cs *c05Case) {
 		z.AbsQuadTo(2, 3, 4, 5)
 		z.RelCubeTo(1, 2, 3, 4, 5, 6)
 		z.ClosePathEndPath()
+		// ... and an undrawn one (outside its level-of-detail range) made of relative curves
+		z.SetLOD(50000, 60000)
+		z.StartPath(0, 1, 1)
+		z.RelQuadTo(1, 2, 3, 4)
+		z.RelSmoothCubeTo(1, 1, 2, 2)
+		z.RelLineTo(1, 0)
+		z.ClosePathEndPath()
+		z.SetLOD(0, float32(math.Inf(1)))
 		z.SetRasterizer(&st.ras, rect)
 	}
 	st.ras.ResetLog()
